@@ -460,6 +460,19 @@ int main(int argc, char** argv)
   RUN(1, scalar<signed char>(rng); scalar<unsigned char>(rng); scalar<unsigned long>(rng); scalar<double>(rng))
   RUN(2, scalar<short>(rng); scalar<unsigned short>(rng); scalar<long long>(rng); scalar<E32>(rng))
   RUN(3, scalar<int>(rng); scalar<unsigned int>(rng); scalar<unsigned long long>(rng); pointers(rng); struct_fields(rng))
+  // enumerations whose underlying type has another width under this ABI: the sandbox image must have the width the ABI
+  // gives the underlying type (a real guest compiled for this ABI lays the enum out like that)
+  if (part < 0 || part == 2) {
+    enum class EL : long { A = 1, B = 0x1234 };
+    enum EUL : unsigned long { UA = 7 };
+    mon::ctx("enum-with-abi-dependent-underlying-type | sizes");
+    mon::evals(2);
+    if (sizeof(tainted_volatile<EL, S>) != sizeof(G<long>) || sizeof(tainted_volatile<EUL, S>) != sizeof(G<unsigned long>))
+      report("enum-with-abi-dependent-underlying-type", "enum : long", "sandbox-image-keeps-application-size",
+             mon::fmt("%s: enum class EL : long occupies %zu bytes in sandbox memory (stride of tainted<EL*> arithmetic, struct field offsets), the ABI gives long %zu bytes; enum EUL : unsigned long %zu vs %zu",
+                      Cfg::name, sizeof(tainted_volatile<EL, S>), sizeof(G<long>), sizeof(tainted_volatile<EUL, S>), sizeof(G<unsigned long>)));
+    else n_load_ok++;
+  }
   mon::hit("store-footprint-exact", n_store_ok);
   mon::hit("load-decoding-exact", n_load_ok);
   mon::extra("asan_poisoning", MON_ASAN ? "\"on: everything outside the footprint poisoned during each access\"" : "\"off (plain build: all alignments 0..15)\"");
